@@ -718,7 +718,25 @@ pub fn run_check(
         } else {
             Duration::from_secs(30)
         };
-        let confirmed = reproduces(check, &mut server, &tape, &key, per);
+        let mut confirmed = reproduces(check, &mut server, &tape, &key, per);
+        // Observations of a real OS process (the shipped binary with its own, uncontrolled hash
+        // seed) are the one thing a tape does not pin down: when such a process is itself
+        // non-deterministic the difference shows again only with some probability.
+        let uncontrolled = c.violation.rule.ends_with("/real-process");
+        if confirmed.is_none() && uncontrolled {
+            for _ in 0..8 {
+                confirmed = reproduces(check, &mut server, &tape, &key, per);
+                if confirmed.is_some() {
+                    break;
+                }
+            }
+            if confirmed.is_none() {
+                let mut v = c.violation.clone();
+                v.detail = format!("{}\n(seen once in the batch; eight re-executions of the tape did not show it again: the shipped binary is an OS process with an uncontrolled hash seed, so this replay is probabilistic)", v.detail);
+                confirmed = Some((v, None));
+                harness_warnings.push(format!("run {}: a {} observation did not repeat in 9 re-executions", c.index, c.violation.rule));
+            }
+        }
         let first = match confirmed {
             Some(v) => v,
             None => {
